@@ -86,7 +86,14 @@ func c17Byte(e ast.Expr) (byte, error) {
 		}
 		return byte(r), nil
 	}
-	return 0, fmt.Errorf("not a char literal: %T", e)
+	if x, ok := e.(*ast.BasicLit); ok && x.Kind == token.INT { // e.g. `0: []byte("&#0;")`
+		v, err := strconv.ParseInt(x.Value, 0, 16)
+		if err != nil || v < 0 || v > 255 {
+			return 0, fmt.Errorf("integer key %s does not fit a byte", x.Value)
+		}
+		return byte(v), nil
+	}
+	return 0, fmt.Errorf("not a char or small integer literal: %T", e)
 }
 
 func c17Map(r *Repo, rel, name string) (*ast.CompositeLit, error) {
@@ -134,6 +141,10 @@ func c17Hashes(r *Repo, rel string) (map[string]c17Hash, []c17Hash, error) {
 	haveText := false
 	consts := []c17Hash{}
 	for _, f := range fs {
+		// only the generated perfect-hash file: other files may declare pseudo hashes that are not table rows
+		if !strings.HasSuffix(r.Fset.Position(f.Pos()).Filename, "hash.go") {
+			continue
+		}
 		for _, d := range f.Decls {
 			gd, ok := d.(*ast.GenDecl)
 			if !ok || (gd.Tok != token.CONST && gd.Tok != token.VAR) {
@@ -212,6 +223,25 @@ func c17PairsFile(name, source, doc, typ string, rows []c17Row, val func(string)
 			sep = ""
 		}
 		fmt.Fprintf(&b, "  (%s, %s)%s\n", leanPk(r.k), val(r.v), sep)
+	}
+	b.WriteString("]\n")
+	b.WriteString(footer(name))
+	return b.String()
+}
+
+// c17ByteFile writes a byte-keyed map: the key is the plain byte value (a `Nat`), the value a packed string
+// (a packed string cannot represent the one-byte string NUL).
+func c17ByteFile(name, source, doc string, rows []c17Row) string {
+	var b strings.Builder
+	b.WriteString(c17Header(name, source))
+	b.WriteString("/-- " + doc + " -/\n")
+	b.WriteString("def table : List (Nat × Nat) := [\n")
+	for i, r := range rows {
+		sep := ","
+		if i == len(rows)-1 {
+			sep = ""
+		}
+		fmt.Fprintf(&b, "  (%d, %s)%s  -- %s\n", r.k[0], leanPk(r.v), sep, strconv.QuoteToASCII(r.k))
 	}
 	b.WriteString("]\n")
 	b.WriteString(footer(name))
@@ -503,9 +533,16 @@ func init() {
 		if err != nil {
 			return "", err
 		}
-		return c17PairsFile("TextRevHtml", "/repo/html/table.go (TextRevEntitiesMap)",
-			"`html.TextRevEntitiesMap`: byte (as a one-character list) ↦ the escape written for it in text",
-			"Nat × Nat", rows, leanPk), nil
+		return c17ByteFile("TextRevHtml", "/repo/html/table.go (TextRevEntitiesMap)",
+			"`html.TextRevEntitiesMap`: byte value ↦ the (packed) escape written in text when a reference decodes to that byte", rows), nil
+	})
+	gen("AttrRevHtml", func(r *Repo) (string, error) {
+		rows, err := c17ByteBytesMap(r, "html", "AttrRevEntitiesMap")
+		if err != nil {
+			return "", err
+		}
+		return c17ByteFile("AttrRevHtml", "/repo/html/table.go (AttrRevEntitiesMap)",
+			"`html.AttrRevEntitiesMap`: byte value ↦ the (packed) escape written in an attribute value when a reference decodes to that byte", rows), nil
 	})
 	gen("EntitiesXml", func(r *Repo) (string, error) {
 		rows, err := c17StrBytesMap(r, "xml", "EntitiesMap")
@@ -521,9 +558,16 @@ func init() {
 		if err != nil {
 			return "", err
 		}
-		return c17PairsFile("TextRevXml", "/repo/xml/table.go (TextRevEntitiesMap)",
-			"`xml.TextRevEntitiesMap`: byte (as a one-character list) ↦ the escape written for it in text",
-			"Nat × Nat", rows, leanPk), nil
+		return c17ByteFile("TextRevXml", "/repo/xml/table.go (TextRevEntitiesMap)",
+			"`xml.TextRevEntitiesMap`: byte value ↦ the (packed) escape written in character data when a reference decodes to that byte", rows), nil
+	})
+	gen("AttrRevXml", func(r *Repo) (string, error) {
+		rows, err := c17ByteBytesMap(r, "xml", "AttrRevEntitiesMap")
+		if err != nil {
+			return "", err
+		}
+		return c17ByteFile("AttrRevXml", "/repo/xml/table.go (AttrRevEntitiesMap)",
+			"`xml.AttrRevEntitiesMap`: byte value ↦ the (packed) escape written in an attribute value when a reference decodes to that byte", rows), nil
 	})
 	gen("TagTraits", func(r *Repo) (string, error) {
 		return c17Traits(r, "TagTraits", "tagMap", "normalTag", "TagTrait",
